@@ -339,6 +339,18 @@ func (r *crun) apply(op harness.Op, idx int) {
 				c.Violate("C22", "restart-failed", err.Error(), n)
 			}
 		})
+	case "failround":
+		// the next round-transition write(s) of a node hit a failing disk
+		n := r.node(op.N)
+		if !n.Alive {
+			return
+		}
+		name := "StartNewRound"
+		if op.B == 1 {
+			name = "UpdateEmptyHeadRound"
+		}
+		c.FailStoreCall(n, name, int(1+op.A%2))
+		r.fault("storeerr.armed."+name, c.Q.Now+10*time.Second)
 	case "crashcall":
 		n := r.node(op.N)
 		if !n.Alive {
